@@ -14,6 +14,20 @@ CLAIMED = {
         ref="DESIGN.md §5 C20"),
 }
 
+CLAIMED["C19"] = dict(
+    text="Lean 4 proof over the storage model whose partition tables (_ptypes/_processes/_signals/_resolutions/"
+         "_conversion_paths) are re-extracted from twod2.py on every run: each pathway type lies in exactly one process and "
+         "one signal (decide on the extracted tables); for EVERY history of _add_data calls (any level, tags, accepted or "
+         "refused) and set_resolution calls the total read back equals the sum of the accepted additions "
+         "(conservation_total, induction over histories with a well-formedness invariant); refused additions leave the "
+         "store unchanged; per-view conservation is proved per step (view_add) and observed end-to-end by the oracle. The "
+         "model is tied to TwoDResponse by exact differential runs of random histories (outcomes, reads, storage dumps).",
+    note="Lean kernel + standard axioms; table extractor and correspondence harness (ours); hand model of "
+         "_add_data/getter/setter/set_resolution validated on generated histories only; per-view conservation across "
+         "reductions is checked by the oracle on the implementation, not proved.",
+    technique="Lean 4 invariant proof over operation histories + extracted tables + exact model/implementation correspondence",
+    ref="DESIGN.md §5 C19")
+
 NOT_APPLICABLE = {}
 
 
